@@ -24,16 +24,6 @@ the whole case):
 * `eol_uni`   "Whitespace at both ends is removed" (`:>`): the white space of the reading, or every Unicode
               white-space character.
 * `xref`, `strict`  see the check's ASSUMPTIONS.
-
-Defect models (used only to *classify* a mismatch as a listed finding, never to accept it silently):
-
-* `kf6` (KF-C09-6)  tokens are delimited by blank/tab/CR/LF only, but "is the rest of the line blank?" is decided
-                    with `str.isspace()` / `str.strip()` (all Unicode white space): a last token of a line that
-                    consists of such characters only is dropped (and stays the look-ahead token when the parser
-                    then moves to the end of / past the line).
-* `kf7` (KF-C09-7)  the white space between the name of an instruction and its arguments is skipped with
-                    `str.isspace()`: a first argument (or the start of it) that consists of Unicode white space
-                    other than blank/tab is dropped.
 """
 import re
 
@@ -152,18 +142,15 @@ class Unsupported(Exception):
 
 
 class Reader:
-    def __init__(self, src, pos, symbols, ws_extra='', eol_uni=False, xref=False, strict=False, kf6=False,
-                 kf7=False):
+    def __init__(self, src, pos, symbols, ws_extra='', eol_uni=False, xref=False, strict=False):
         self.src = src
         self.pos = pos
         self.symbols = symbols  # name -> ('string', str) | ('list', [str]) | ('path', str)
-        self.ws = ASCII_WS + ('' if (kf6 or kf7) else ws_extra)  # what separates tokens
-        self.line_ws = ALL_WS if kf6 else self.ws  # what is blank when asking "is the rest of the line blank?"
+        self.ws = ASCII_WS + ws_extra  # what separates tokens, and what is blank at the end of a line
+        self.line_ws = self.ws
         self.eol_ws = ALL_WS if eol_uni else self.ws  # what is removed around TEXT-UNTIL-END-OF-LINE
         self.xref = xref
         self.strict = strict
-        self.kf6 = kf6
-        self.kf7 = kf7
         self._head = None
         self._head_pos = None
         self.invalid = False  # a reference that cannot be resolved was met (reported after the syntax is read)
@@ -192,22 +179,11 @@ class Reader:
         self.pos = t.end
         return t
 
-    def _leave_line(self, new_pos):
-        rest = self.rest_of_line()
-        if self.kf6 and line_end(self.src, self.pos) < len(self.src) and rest.strip(ASCII_WS) != '' \
-                and rest.strip(ALL_WS) == '':
-            # the position moves, the look-ahead token stays what it was
-            stale = self.head()
-            self.pos = new_pos
-            self._head, self._head_pos = stale, new_pos
-        else:
-            self.pos = new_pos
-
     def to_line_end(self):
-        self._leave_line(line_end(self.src, self.pos))
+        self.pos = line_end(self.src, self.pos)
 
     def to_next_line(self):
-        self._leave_line(min(len(self.src), line_end(self.src, self.pos) + 1))
+        self.pos = min(len(self.src), line_end(self.src, self.pos) + 1)
 
     # ---- token classification ---------------------------------------------
     @staticmethod
@@ -416,10 +392,6 @@ def _read_host(r: Reader, host: str):
             return ['str', v], r.pos
         if host == 'fname':
             pos0 = r.pos
-            if r.kf7:
-                # the arguments start directly after the instruction name
-                while r.pos < len(r.src) and r.src[r.pos] in ALL_WS and r.src[r.pos] != '\n':
-                    r.pos += 1
             # PATH without RELATIVITY: FILE-NAME is a STRING (a token that looks like an option is not modelled)
             t = r.require_token()
             if t.vsrc.lstrip(ALL_WS).startswith('-'):
